@@ -9,7 +9,7 @@ ASSUMPTIONS = [
     "class / function / method / argparse (ast.unparse is a function of the tree, so equal trees give byte-identical text)",
     "the parsed IR is re-emitted under the same kind, name and options; `_internal` (carried bodies) is dropped - bodies are C16's subject",
 ]
-SH = ["p1_int", "p1_int_d", "p1_str_s", "p1_bool_b", "p1_optint_none", "p2_d_then_plain", "p2_plain_then_d", "p1_ret", "p1_ret_d",
+SH = ["p1_optint_d", "p1_optbool_f", "p1_int", "p1_int_d", "p1_str_s", "p1_bool_b", "p1_optint_none", "p2_d_then_plain", "p2_plain_then_d", "p1_ret", "p1_ret_d",
       "ret_only", "p1_kwargs", "p0", "p1_literal", "p1_code", "p1_untyped_d", "p3_mixed"]
 ARGP = [s for s in SH if s in C04.EXPR]
 
